@@ -19,9 +19,10 @@ def expand(o):
     log = []
     for e in o["log"]:
         e = dict(e)
-        cs = e.pop("cs")
-        e["ch"] = cs
-        e["par"] = invert(cs)
+        if "cs" in e:       # (MC_OpsRe emits both functions: its snapshots can be corrupt)
+            cs = e.pop("cs")
+            e["ch"] = cs
+            e["par"] = invert(cs)
         log.append(e)
     o["log"] = log
     for k in ("ks", "kinds", "nodes"):
@@ -121,19 +122,22 @@ def perform(o, family, form=0, quiet=False, reuse=False):
         postch[o["n"]] = []
     obs = dict(o)
     obs.update(exc=exc, src=src, log=log, postpar=postpar, postch=postch, iterable_form=form % 6)
+    if "nest" in o:
+        obs["nest"] = N.Ctx.nest or dict(NO_NEST)
     obs.pop("marks", None)
     obs.pop("pcs", None)
     return obs
 
 
 OBS_FIELDS = ("exc", "src", "postpar", "postch", "log")
+NO_NEST = {"lo": 0, "hi": 0, "exc": "Nil", "par": [], "ch": []}
 
 
 def same(pred, obs):
     if pred["exc"] == "RecursionError":
         # where CPython's recursion limit strikes is not part of the model: only the outcome is compared
         return obs["exc"] == "RecursionError"
-    return all(pred[f] == obs[f] for f in OBS_FIELDS)
+    return all(pred[f] == obs[f] for f in OBS_FIELDS) and pred.get("nest") == obs.get("nest")
 
 
 def worker_init(repo, assertions, reclimit=220):
@@ -220,6 +224,58 @@ def replay_chunk(args):
                 if any(a[f] != b[f] for f in OBS_FIELDS) and len(out["lockstep_diff"]) < 8:
                     out["lockstep_diff"].append({"pred": pred, "pair": list(pair), pair[0]: a, pair[1]: b})
             elif a.get("build_failed") != b.get("build_failed") and len(out["lockstep_diff"]) < 8:
+                out["lockstep_diff"].append({"pred": pred, "pair": list(pair), pair[0]: a, pair[1]: b})
+    return out
+
+
+@core.safe_worker
+def replay_chunk_re(args):
+    """Vectors of MC_OpsRe (re-entrant hooks): the hook invocation plan.ak itself calls `am.parent = av`."""
+    import json
+    import zlib
+
+    lines, families, lockstep = args
+    out = {"n": 0, "same": 0, "attention": [], "per_family": {}, "lockstep_diff": [], "dropped": 0, "corrupting": 0, "noninterfering": 0,
+           "nested_raises": 0, "cyclic_skipped": 0}
+    strata = {}
+    for line in lines:
+        vec = json.loads(json.loads(line))
+        if vec["cyc"]:
+            out["cyclic_skipped"] += 1      # (the library does not terminate on a cyclic forest)
+            continue
+        pred = expand(vec["o"])
+        form0 = zlib.crc32(line.encode()) % 6
+        flags = {"re": sorted(vec["re"]), "ni": vec["ni"], "bad": vec["bad"]}
+        observed = {}
+        for fam in families:
+            out["n"] += 1
+            out["per_family"][fam] = out["per_family"].get(fam, 0) + 1
+            try:
+                obs = core.call_with_deadline(lambda: perform(pred, fam, form0))
+            except core.Hang:
+                obs = dict(pred, exc="Other:Hang", src=0, log=[], build_failed=False, nest=dict(NO_NEST))
+            observed[fam] = obs
+            if obs.get("build_failed"):
+                continue        # (building pre-states is the business of the plain vectors)
+            if same(pred, obs):
+                out["same"] += 1
+                out["corrupting"] += bool(vec["bad"])
+                out["noninterfering"] += bool(vec["ni"])
+                out["nested_raises"] += pred["nest"]["exc"] != "Nil"
+            else:
+                key = (fam, pred["k"], pred["exc"], obs.get("exc"), vec["ni"], pred["log"][pred["plan"]["ak"] - 1]["h"])
+                strata[key] = strata.get(key, 0) + 1
+                if strata[key] <= 3:
+                    out["attention"].append({"family": fam, "pred": pred, "obs": obs, "flags": flags, "why": "differs"})
+                else:
+                    out["dropped"] += 1
+        for pair in (lockstep or ()):
+            if not all(f in observed for f in pair):
+                continue
+            a, b = observed[pair[0]], observed[pair[1]]
+            if a.get("build_failed") or b.get("build_failed") or a["exc"] == "RecursionError":
+                continue
+            if (any(a[f] != b[f] for f in OBS_FIELDS) or a.get("nest") != b.get("nest")) and len(out["lockstep_diff"]) < 8:
                 out["lockstep_diff"].append({"pred": pred, "pair": list(pair), pair[0]: a, pair[1]: b})
     return out
 
